@@ -19,6 +19,10 @@ from .loops import merge, merge_paths, subst
 merge_many = merge_paths
 
 
+def zbool_(x):
+    return z3.BoolVal(x) if isinstance(x, bool) else x
+
+
 # ---------------------------------------------------------------------------------------
 # embedding into V
 # ---------------------------------------------------------------------------------------
@@ -52,16 +56,23 @@ _tuple_fns = {}
 
 
 def mk_tuple(ctx, elems):
+    """V value of a Python tuple: free constructor (equal iff component-wise equal)."""
     n = len(elems)
     if n not in _tuple_fns:
         f = z3.Function(f"tuple{n}", *([V] * n), V)
         projs = [z3.Function(f"tuple{n}_{i}", V, V) for i in range(n)]
         _tuple_fns[n] = (f, projs)
     f, projs = _tuple_fns[n]
-    t = f(*elems) if n else z3.Const("tuple0", V)
-    for i, p in enumerate(projs):
-        ctx.assumptions.append(p(t) == elems[i])
-    return t
+    if n == 0:
+        return z3.Const("tuple0", V)
+    done = ctx.__dict__.setdefault("_tuple_axioms", set())
+    if n not in done:
+        done.add(n)
+        xs = [z3.Const(f"x{i}!tp", V) for i in range(n)]
+        t = f(*xs)
+        ctx.axioms.append(z3.ForAll(xs, z3.And(*[p(t) == xs[i] for i, p in enumerate(projs)], t != NONE, t != ABSENT),
+                                    patterns=[t]))
+    return f(*elems)
 
 
 # ---------------------------------------------------------------------------------------
@@ -882,7 +893,9 @@ def _d_get(it, args, kwargs):
     default = args[2] if len(args) > 2 else kwargs.get("default", None)
     if isinstance(d, dict):
         if is_z3(k):
-            raise Unsupported("symbolic key into concrete dict")
+            # concrete dict, symbolic key: first matching key (keys are distinct)
+            items = [(zbool_(py_eq(it, kk, k)), vv) for kk, vv in d.items()] + [(z3.BoolVal(True), default)]
+            return merge_many(items)
         return d.get(k, default)
     arr = dict_contents(it, d)
     kv = to_v(it, k)
@@ -1258,6 +1271,13 @@ def _isinstance(it, args, kwargs):
     name = t.name if isinstance(t, (TypeObj, ClassObj)) else None
     if name is None:
         raise Unsupported(f"isinstance with {t!r}")
+    if hasattr(x, "pyvc_isinstance"):
+        return x.pyvc_isinstance(it, t)
+    if type(x).__name__ == "DType":
+        from .models_np import kind_is
+        if name == "StringDType":
+            return kind_is(x.kind, "string")
+        return False
     if isinstance(x, Instance):
         if getattr(x, "maybe_none", False):
             # a reference read from a heap field: None or an instance of the field's class
